@@ -2367,7 +2367,7 @@ class FST:
             if code is None:
                 return None
 
-            if a := pfield.get_default(parent.a, None):  # may not be there due to removal of last element or raw reparsing of weird *(^$
+            if parent and (a := pfield.get_default(parent.a, None)):  # may not be there due to removal of last element or raw reparsing of weird *(^$, parent itself may be gone
                 return a.f
 
             return None
@@ -4468,7 +4468,7 @@ class FST:
                     for p in path.split('.')] if path else []
 
         for p in path:
-            if (next := p.get_default(self.a)) is False:
+            if not isinstance(next := p.get_default(self.a), AST):  # not there, or an empty optional field or a non-node where the path expects a node (tree may have been reparsed to something else)
                 return self if last_valid else False
 
             self = next.f
